@@ -41,6 +41,9 @@ type Dg struct {
 }
 
 type Ev struct {
+	// "remove": the peer ceases to exist — Via "uapi" (public_key=…, remove=true) or "selfkey" (private_key=<the peer's
+	// private key>: a device never has itself as a peer).  Handshakes attempted for it afterwards must fail.
+	Via  string `json:"via,omitempty"`
 	Kind string `json:"k"` // "hsu" (handshake without the confirming keepalive), "restart" (Down + Up), "hs", "age" (keypair creation moved Secs s + Ms ms into the past), "idle" (Ms ms of real time pass), "dg"
 	Peer int    `json:"peer,omitempty"`
 	Secs int    `json:"secs,omitempty"`
@@ -114,6 +117,7 @@ func run(sc *Scenario) {
 	}
 	defer closeWorld(w)
 	var sessions []*sess
+	gone := make([]bool, sc.NPeers)
 	aged := time.Now()
 	rxOf := func() []uint64 {
 		o := make([]uint64, sc.NPeers)
@@ -131,6 +135,13 @@ func run(sc *Scenario) {
 			p := peers[ev.Peer]
 			w.Dev.VerifShiftHandshakeTimes(cosim.NoisePK(p.Pub), time.Second)
 			_, out, s, err := w.RefInitiates(p, p.Addr, ref.Tai64n(time.Now()))
+			if gone[ev.Peer] && err != nil && out.Settled {
+				// nobody can complete a handshake as a removed peer: the serial is used up, no session exists
+				sessions = append(sessions, nil)
+				ev.Serial = len(sessions)
+				ev.DevIdx = 0
+				continue
+			}
 			if err != nil || !out.Settled {
 				sc.Discarded = fmt.Sprintf("handshake %d: %v", ei, err)
 				return
@@ -163,6 +174,27 @@ func run(sc *Scenario) {
 			sessions = append(sessions, &sess{ev.Peer, s})
 			ev.Serial = len(sessions)
 			ev.DevIdx = s.RemoteIdx
+		case "remove":
+			p := peers[ev.Peer]
+			var cfg string
+			if ev.Via == "selfkey" {
+				cfg = fmt.Sprintf("private_key=%x\n", p.Priv[:])
+			} else {
+				cfg = fmt.Sprintf("public_key=%x\nremove=true\n", p.Pub[:])
+			}
+			err, out := w.Set(cfg)
+			if err != nil || !out.Settled {
+				sc.Discarded = fmt.Sprintf("remove %d: %v", ei, err)
+				poisoned = !out.Settled
+				return
+			}
+			if ev.Via == "selfkey" {
+				w.DevPriv, w.DevPub = p.Priv, p.Pub
+			}
+			gone[ev.Peer] = true
+			for _, x := range out.Written {
+				ev.Writes = append(ev.Writes, x.Data)
+			}
 		case "restart":
 			w.Dev.Down()
 			o1 := w.Take()
@@ -256,10 +288,13 @@ func run(sc *Scenario) {
 						return
 					}
 					s := sessions[d.Sess-1]
+					if s == nil { // the handshake for this serial (rightly) failed: there is no key; any bytes will do
+						s = &sess{0, &ref.Session{SendKey: ref.NewPrivate()}}
+					}
 					from = peers[s.peer].Addr
 					msg = s.s.Transport(d.Ctr, d.Plain)
 					idx := d.Idx
-					if d.IdxOf >= 1 && d.IdxOf <= len(sessions) {
+					if d.IdxOf >= 1 && d.IdxOf <= len(sessions) && sessions[d.IdxOf-1] != nil {
 						idx = sessions[d.IdxOf-1].s.RemoteIdx
 					}
 					d.UsedIdx = idx
@@ -335,6 +370,8 @@ type gsess struct {
 	max    uint64   // greatest counter used
 	used   []uint64 // counters sent so far
 	unconf bool     // offered by the device, not yet used by us
+	ghost  bool     // handshake attempted as a removed peer: no session should exist
+	tag    string   // note prefix for datagrams under a dead session
 	dead   bool     // from before a restart of the interface
 }
 
@@ -345,6 +382,7 @@ type gen struct {
 	bnd4 [][]byte
 	bnd6 [][]byte
 	big  bool
+	gone []bool
 }
 
 func (g *gen) srcFor(fam, p int, own bool) []byte {
@@ -532,7 +570,11 @@ func (g *gen) datagram() Dg {
 		pl, note := g.plain(s.peer)
 		c := s.next
 		g.note(s, c)
-		return Dg{Sess: s.serial, IdxOf: s.serial, Ctr: c, Plain: pl, Note: "pre-restart/" + note}
+		tag := s.tag
+		if tag == "" {
+			tag = "pre-restart"
+		}
+		return Dg{Sess: s.serial, IdxOf: s.serial, Ctr: c, Plain: pl, Note: tag + "/" + note}
 	}
 	if len(live) == 0 {
 		return Dg{Raw: true, TypeWord: 4, RawLen: 31, Note: "raw"}
@@ -540,6 +582,9 @@ func (g *gen) datagram() Dg {
 	s := live[r.Intn(len(live))]
 	pl, note := g.plain(s.peer)
 	x := r.Intn(100)
+	if s.ghost {
+		note = "removed-peer/" + note
+	}
 	switch {
 	case x < 62:
 		c := g.freshCtr(s)
@@ -676,6 +721,12 @@ func genScenario(r *rand.Rand, big bool, cookie bool) *Scenario {
 		restarts = 1 + r.Intn(2)
 		n += 5
 	}
+	removes := 0
+	g.gone = make([]bool, sc.NPeers)
+	if sc.NPeers > 1 && r.Intn(4) == 0 {
+		removes = 1
+		n += 4
+	}
 	for i := 0; i < n; i++ {
 		var pending *gsess
 		for _, s := range g.all {
@@ -687,6 +738,42 @@ func genScenario(r *rand.Rand, big bool, cookie bool) *Scenario {
 			sc.Evs = append(sc.Evs, g.confirm(pending))
 			continue
 		}
+		if pending != nil && r.Intn(3) == 0 {
+			// an offered key that is confirmed late does not live longer for it: age, first use, age again,
+			// and a message that arrives more than RejectAfterTime after the key was created
+			p := pending.peer
+			sc.Evs = append(sc.Evs, Ev{Kind: "age", Peer: p, Secs: 100}, g.confirm(pending), Ev{Kind: "age", Peer: p, Secs: 100})
+			pl, note := g.plain(p)
+			c := pending.next
+			g.note(pending, c)
+			sc.Evs = append(sc.Evs, Ev{Kind: "dg", Dgs: []Dg{{Sess: pending.serial, IdxOf: pending.serial, Ctr: c, Plain: pl, Note: "late-confirmed-key-expired/" + note}}})
+			continue
+		}
+		if removes > 0 && r.Intn(8) == 0 {
+			removes--
+			var cand []int
+			for p := 0; p < sc.NPeers; p++ {
+				if !g.gone[p] {
+					cand = append(cand, p)
+				}
+			}
+			if len(cand) > 1 {
+				p := cand[r.Intn(len(cand))]
+				g.gone[p] = true
+				sc.Evs = append(sc.Evs, Ev{Kind: "remove", Peer: p, Via: []string{"uapi", "selfkey"}[r.Intn(2)]})
+				for _, s := range g.all {
+					if s.peer == p {
+						s.dead, s.unconf, s.tag = true, false, "removed-peer"
+					}
+				}
+				if r.Intn(3) != 0 { // somebody holding the old peer key tries again
+					ev := g.hs(p)
+					g.all[len(g.all)-1].ghost = true
+					sc.Evs = append(sc.Evs, ev)
+				}
+				continue
+			}
+		}
 		if restarts > 0 && r.Intn(7) == 0 {
 			restarts--
 			sc.Evs = append(sc.Evs, Ev{Kind: "restart"})
@@ -695,8 +782,8 @@ func genScenario(r *rand.Rand, big bool, cookie bool) *Scenario {
 			}
 			continue
 		}
-		if r.Intn(9) == 0 {
-			sc.Evs = append(sc.Evs, g.hsu(r.Intn(sc.NPeers)))
+		if p := r.Intn(sc.NPeers); r.Intn(9) == 0 && !g.gone[p] {
+			sc.Evs = append(sc.Evs, g.hsu(p))
 			continue
 		}
 		switch x := r.Intn(100); {
@@ -714,7 +801,9 @@ func genScenario(r *rand.Rand, big bool, cookie bool) *Scenario {
 			}
 			sc.Evs = append(sc.Evs, ev)
 		case x < 90:
-			sc.Evs = append(sc.Evs, g.hs(r.Intn(sc.NPeers)))
+			if p := r.Intn(sc.NPeers); !g.gone[p] {
+				sc.Evs = append(sc.Evs, g.hs(p))
+			}
 		default:
 			sc.Evs = append(sc.Evs, Ev{Kind: "age", Peer: r.Intn(sc.NPeers), Secs: 100})
 		}
@@ -879,6 +968,33 @@ func directed() []*Scenario {
 		scm.Evs = append(scm.Evs, ev)
 		out = append(out, scm)
 	}
+	// a removed peer: by UAPI, and by giving the device the peer's own private key.  Its sessions end, its allowed-IPs
+	// leave the table, and whoever holds its key can no longer handshake
+	for _, via := range []string{"selfkey", "uapi"} {
+		scr := &Scenario{Gen: "directed-remove-" + via, NPeers: 2, BindBatch: 4, Table: tbl}
+		scr.Evs = []Ev{{Kind: "hs", Peer: 0}, {Kind: "hs", Peer: 1},
+			{Kind: "dg", Dgs: []Dg{{Sess: 1, IdxOf: 1, Ctr: 1, Plain: ref.Pad(v4([4]byte{10, 1, 1, 1}, 40))}, {Sess: 2, IdxOf: 2, Ctr: 1, Plain: ref.Pad(v4([4]byte{10, 1, 2, 1}, 41))}}},
+			{Kind: "remove", Peer: 0, Via: via},
+			{Kind: "dg", Dgs: []Dg{{Sess: 1, IdxOf: 1, Ctr: 2, Plain: ref.Pad(v4([4]byte{10, 1, 1, 1}, 42)), Note: "removed-peer/old-session"},
+				{Sess: 2, IdxOf: 2, Ctr: 2, Plain: ref.Pad(v4([4]byte{10, 1, 2, 1}, 43))},
+				{Sess: 2, IdxOf: 2, Ctr: 3, Plain: ref.Pad(v4([4]byte{10, 1, 1, 1}, 44)), Note: "source-of-removed-peer"}}},
+			{Kind: "hs", Peer: 0}, // serial 3: must fail
+			{Kind: "dg", Dgs: []Dg{{Sess: 3, IdxOf: 3, Ctr: 1, Plain: ref.Pad(v4([4]byte{10, 1, 1, 1}, 45)), Note: "removed-peer/new-handshake"}}},
+			{Kind: "hs", Peer: 1}, // serial 4: the remaining peer handshakes against the (possibly new) device identity
+			{Kind: "dg", Dgs: []Dg{{Sess: 4, IdxOf: 4, Ctr: 1, Plain: ref.Pad(v4([4]byte{10, 1, 2, 1}, 46))},
+				{Sess: 3, IdxOf: 3, Ctr: 2, Plain: ref.Pad(v4([4]byte{10, 1, 1, 1}, 47)), Note: "removed-peer/new-handshake"}}},
+		}
+		out = append(out, scr)
+	}
+	// an offered key confirmed late: the clock of a keypair starts when it is created, not when it is first used
+	scl := &Scenario{Gen: "directed-late-confirmation", NPeers: 1, BindBatch: 1, Table: tbl[:1]}
+	scl.Evs = []Ev{{Kind: "hs", Peer: 0}, {Kind: "hsu", Peer: 0}, {Kind: "age", Peer: 0, Secs: 100},
+		{Kind: "dg", Dgs: []Dg{{Sess: 2, IdxOf: 2, Ctr: 0, Plain: ref.Pad(v4([4]byte{10, 1, 1, 1}, 40)), Note: "first-under-offered"}}},
+		{Kind: "dg", Dgs: []Dg{{Sess: 2, IdxOf: 2, Ctr: 1, Plain: ref.Pad(v4([4]byte{10, 1, 1, 1}, 41))}}},
+		{Kind: "age", Peer: 0, Secs: 100},
+		{Kind: "dg", Dgs: []Dg{{Sess: 2, IdxOf: 2, Ctr: 2, Plain: ref.Pad(v4([4]byte{10, 1, 1, 1}, 42)), Note: "late-confirmed-key-expired"}}},
+	}
+	out = append(out, scl)
 	// restart of the interface at every stage of a handshake: previous, current and an offered (unconfirmed) key
 	// all end with Down; nothing under them is delivered after Up until a new handshake
 	pk := func(n int) []byte { return ref.Pad(v4([4]byte{10, 1, 1, 1}, n)) }
@@ -939,6 +1055,8 @@ func gallina(sc *Scenario) string {
 			fmt.Fprintf(&b, "RHsu %d %d %d", ev.Peer, ev.DevIdx, ev.Serial)
 		case "restart":
 			b.WriteString("RRestart")
+		case "remove":
+			fmt.Fprintf(&b, "RRemove %d", ev.Peer)
 		case "age":
 			fmt.Fprintf(&b, "RAge %d %d", ev.Peer, ev.Secs*1000+ev.Ms)
 		case "idle": // every keypair of every peer grows older
